@@ -586,5 +586,495 @@ theorem java_eq_c_CSb_Total_Kissel (hk : KAllOk T Z) (hN2 : inI32 (T.NE_Rayl Z.t
   · jeq_auto
 end totk
 
+section jtame
+variable (T : Tables ℝ) (Z : Int) (hZ : inI32 Z) (E PK PL1 PL2 PL3 PM1 PM2 PM3 PM4 : ℝ)
+include hZ
+
+theorem jtame_FluorYield_catch (m : Int) (hm : inI32 m) : JTame (JGen.FluorYield_catch (JTables.ofC T) Z m) := by
+  obtain ⟨v, _, hj⟩ := catchT_FluorYield T Z m hZ hm; exact JTame.of_eq_ok hj
+theorem jtame_RadRate_catch (m : Int) (hm : inI32 m) : JTame (JGen.RadRate_catch (JTables.ofC T) Z m) := by
+  obtain ⟨v, _, hj⟩ := catchT_RadRate T Z m hZ hm; exact JTame.of_eq_ok hj
+theorem jtame_CosKronTransProb_catch (m : Int) (hm : inI32 m) : JTame (JGen.CosKronTransProb_catch (JTables.ofC T) Z m) := by
+  obtain ⟨v, _, hj⟩ := catchT_CosKronTransProb T Z m hZ hm; exact JTame.of_eq_ok hj
+
+/-- value or `IllegalArgumentException`, by the shape of a cascade helper (after its table reads have been evaluated) -/
+macro "jtame_struct" : tactic =>
+  `(tactic| repeat' (first
+      | with_reducible exact JTame.ok | with_reducible exact JTame.pure | assumption
+      | (refine jtame_FluorYield_catch _ _ ?_ _ ?_ <;> first | assumption | decide | (unfold inI32 INT_MIN INT_MAX; omega))
+      | (refine jtame_RadRate_catch _ _ ?_ _ ?_ <;> first | assumption | decide | (unfold inI32 INT_MIN INT_MAX; omega))
+      | (refine jtame_CosKronTransProb_catch _ _ ?_ _ ?_ <;> first | assumption | decide | (unfold inI32 INT_MIN INT_MAX; omega))
+      | (with_reducible apply JTame.bind <;> [skip; intro _])
+      | with_reducible apply JTame.ite))
+
+theorem jtame_PL1_pure_kissel (hz : ¬(Z < 1 ∨ Z > 120)) (hf : JTame (JGen.CS_Photo_Partial (JTables.ofC T) Z 1 E)) :
+    JTame (JGen.PL1_pure_kissel (JTables.ofC T) Z E) := by
+  unfold JGen.PL1_pure_kissel
+  jeq_normJ
+  try simp (disch := omega) only [wrapI_eq, jrd_flat3, jpure_eq_ok, jbind_ok]
+  jtame_struct
+
+theorem jtame_PL1_rad_cascade_kissel (hz : ¬(Z < 1 ∨ Z > 120)) (hf : JTame (JGen.CS_Photo_Partial (JTables.ofC T) Z 1 E)) :
+    JTame (JGen.PL1_rad_cascade_kissel (JTables.ofC T) Z E PK) := by
+  unfold JGen.PL1_rad_cascade_kissel
+  jeq_normJ
+  try simp (disch := omega) only [wrapI_eq, jrd_flat3, jpure_eq_ok, jbind_ok]
+  jtame_struct
+
+theorem jtame_PL1_auger_cascade_kissel (hz : ¬(Z < 1 ∨ Z > 120)) (hf : JTame (JGen.CS_Photo_Partial (JTables.ofC T) Z 1 E)) :
+    JTame (JGen.PL1_auger_cascade_kissel (JTables.ofC T) Z E PK) := by
+  unfold JGen.PL1_auger_cascade_kissel JGen.get_kissel_offset
+  jeq_normJ
+  try simp (disch := omega) only [wrapI_eq, jrd_flat3, jpure_eq_ok, jbind_ok]
+  jtame_struct
+
+theorem jtame_PL1_full_cascade_kissel (hz : ¬(Z < 1 ∨ Z > 120)) (hf : JTame (JGen.CS_Photo_Partial (JTables.ofC T) Z 1 E)) :
+    JTame (JGen.PL1_full_cascade_kissel (JTables.ofC T) Z E PK) := by
+  unfold JGen.PL1_full_cascade_kissel JGen.get_kissel_offset
+  jeq_normJ
+  try simp (disch := omega) only [wrapI_eq, jrd_flat3, jpure_eq_ok, jbind_ok]
+  jtame_struct
+
+theorem jtame_PL2_pure_kissel (hz : ¬(Z < 1 ∨ Z > 120)) (hf : JTame (JGen.CS_Photo_Partial (JTables.ofC T) Z 2 E)) :
+    JTame (JGen.PL2_pure_kissel (JTables.ofC T) Z E PL1) := by
+  unfold JGen.PL2_pure_kissel
+  jeq_normJ
+  try simp (disch := omega) only [wrapI_eq, jrd_flat3, jpure_eq_ok, jbind_ok]
+  jtame_struct
+
+theorem jtame_PL2_rad_cascade_kissel (hz : ¬(Z < 1 ∨ Z > 120)) (hf : JTame (JGen.CS_Photo_Partial (JTables.ofC T) Z 2 E)) :
+    JTame (JGen.PL2_rad_cascade_kissel (JTables.ofC T) Z E PK PL1) := by
+  unfold JGen.PL2_rad_cascade_kissel
+  jeq_normJ
+  try simp (disch := omega) only [wrapI_eq, jrd_flat3, jpure_eq_ok, jbind_ok]
+  jtame_struct
+
+theorem jtame_PL2_auger_cascade_kissel (hz : ¬(Z < 1 ∨ Z > 120)) (hf : JTame (JGen.CS_Photo_Partial (JTables.ofC T) Z 2 E)) :
+    JTame (JGen.PL2_auger_cascade_kissel (JTables.ofC T) Z E PK PL1) := by
+  unfold JGen.PL2_auger_cascade_kissel JGen.get_kissel_offset
+  jeq_normJ
+  try simp (disch := omega) only [wrapI_eq, jrd_flat3, jpure_eq_ok, jbind_ok]
+  jtame_struct
+
+theorem jtame_PL2_full_cascade_kissel (hz : ¬(Z < 1 ∨ Z > 120)) (hf : JTame (JGen.CS_Photo_Partial (JTables.ofC T) Z 2 E)) :
+    JTame (JGen.PL2_full_cascade_kissel (JTables.ofC T) Z E PK PL1) := by
+  unfold JGen.PL2_full_cascade_kissel JGen.get_kissel_offset
+  jeq_normJ
+  try simp (disch := omega) only [wrapI_eq, jrd_flat3, jpure_eq_ok, jbind_ok]
+  jtame_struct
+
+theorem jtame_PL3_pure_kissel (hz : ¬(Z < 1 ∨ Z > 120)) (hf : JTame (JGen.CS_Photo_Partial (JTables.ofC T) Z 3 E)) :
+    JTame (JGen.PL3_pure_kissel (JTables.ofC T) Z E PL1 PL2) := by
+  unfold JGen.PL3_pure_kissel
+  jeq_normJ
+  try simp (disch := omega) only [wrapI_eq, jrd_flat3, jpure_eq_ok, jbind_ok]
+  jtame_struct
+
+theorem jtame_PL3_rad_cascade_kissel (hz : ¬(Z < 1 ∨ Z > 120)) (hf : JTame (JGen.CS_Photo_Partial (JTables.ofC T) Z 3 E)) :
+    JTame (JGen.PL3_rad_cascade_kissel (JTables.ofC T) Z E PK PL1 PL2) := by
+  unfold JGen.PL3_rad_cascade_kissel
+  jeq_normJ
+  try simp (disch := omega) only [wrapI_eq, jrd_flat3, jpure_eq_ok, jbind_ok]
+  jtame_struct
+
+theorem jtame_PL3_auger_cascade_kissel (hz : ¬(Z < 1 ∨ Z > 120)) (hf : JTame (JGen.CS_Photo_Partial (JTables.ofC T) Z 3 E)) :
+    JTame (JGen.PL3_auger_cascade_kissel (JTables.ofC T) Z E PK PL1 PL2) := by
+  unfold JGen.PL3_auger_cascade_kissel JGen.get_kissel_offset
+  jeq_normJ
+  try simp (disch := omega) only [wrapI_eq, jrd_flat3, jpure_eq_ok, jbind_ok]
+  jtame_struct
+
+theorem jtame_PL3_full_cascade_kissel (hz : ¬(Z < 1 ∨ Z > 120)) (hf : JTame (JGen.CS_Photo_Partial (JTables.ofC T) Z 3 E)) :
+    JTame (JGen.PL3_full_cascade_kissel (JTables.ofC T) Z E PK PL1 PL2) := by
+  unfold JGen.PL3_full_cascade_kissel JGen.get_kissel_offset
+  jeq_normJ
+  try simp (disch := omega) only [wrapI_eq, jrd_flat3, jpure_eq_ok, jbind_ok]
+  jtame_struct
+
+theorem jtame_PM1_pure_kissel (hz : ¬(Z < 1 ∨ Z > 120)) (hf : JTame (JGen.CS_Photo_Partial (JTables.ofC T) Z 4 E)) :
+    JTame (JGen.PM1_pure_kissel (JTables.ofC T) Z E) := by
+  unfold JGen.PM1_pure_kissel
+  jeq_normJ
+  try simp (disch := omega) only [wrapI_eq, jrd_flat3, jpure_eq_ok, jbind_ok]
+  jtame_struct
+
+theorem jtame_PM1_rad_cascade_kissel (hz : ¬(Z < 1 ∨ Z > 120)) (hf : JTame (JGen.CS_Photo_Partial (JTables.ofC T) Z 4 E)) :
+    JTame (JGen.PM1_rad_cascade_kissel (JTables.ofC T) Z E PK PL1 PL2 PL3) := by
+  unfold JGen.PM1_rad_cascade_kissel
+  jeq_normJ
+  try simp (disch := omega) only [wrapI_eq, jrd_flat3, jpure_eq_ok, jbind_ok]
+  jtame_struct
+
+theorem jtame_PM1_auger_cascade_kissel (hz : ¬(Z < 1 ∨ Z > 120)) (hf : JTame (JGen.CS_Photo_Partial (JTables.ofC T) Z 4 E)) :
+    JTame (JGen.PM1_auger_cascade_kissel (JTables.ofC T) Z E PK PL1 PL2 PL3) := by
+  unfold JGen.PM1_auger_cascade_kissel JGen.get_kissel_offset
+  jeq_normJ
+  try simp (disch := omega) only [wrapI_eq, jrd_flat3, jpure_eq_ok, jbind_ok]
+  jtame_struct
+
+theorem jtame_PM1_full_cascade_kissel (hz : ¬(Z < 1 ∨ Z > 120)) (hf : JTame (JGen.CS_Photo_Partial (JTables.ofC T) Z 4 E)) :
+    JTame (JGen.PM1_full_cascade_kissel (JTables.ofC T) Z E PK PL1 PL2 PL3) := by
+  unfold JGen.PM1_full_cascade_kissel JGen.get_kissel_offset
+  jeq_normJ
+  try simp (disch := omega) only [wrapI_eq, jrd_flat3, jpure_eq_ok, jbind_ok]
+  jtame_struct
+
+theorem jtame_PM2_pure_kissel (hz : ¬(Z < 1 ∨ Z > 120)) (hf : JTame (JGen.CS_Photo_Partial (JTables.ofC T) Z 5 E)) :
+    JTame (JGen.PM2_pure_kissel (JTables.ofC T) Z E PM1) := by
+  unfold JGen.PM2_pure_kissel
+  jeq_normJ
+  try simp (disch := omega) only [wrapI_eq, jrd_flat3, jpure_eq_ok, jbind_ok]
+  jtame_struct
+
+theorem jtame_PM2_rad_cascade_kissel (hz : ¬(Z < 1 ∨ Z > 120)) (hf : JTame (JGen.CS_Photo_Partial (JTables.ofC T) Z 5 E)) :
+    JTame (JGen.PM2_rad_cascade_kissel (JTables.ofC T) Z E PK PL1 PL2 PL3 PM1) := by
+  unfold JGen.PM2_rad_cascade_kissel
+  jeq_normJ
+  try simp (disch := omega) only [wrapI_eq, jrd_flat3, jpure_eq_ok, jbind_ok]
+  jtame_struct
+
+theorem jtame_PM2_auger_cascade_kissel (hz : ¬(Z < 1 ∨ Z > 120)) (hf : JTame (JGen.CS_Photo_Partial (JTables.ofC T) Z 5 E)) :
+    JTame (JGen.PM2_auger_cascade_kissel (JTables.ofC T) Z E PK PL1 PL2 PL3 PM1) := by
+  unfold JGen.PM2_auger_cascade_kissel JGen.get_kissel_offset
+  jeq_normJ
+  try simp (disch := omega) only [wrapI_eq, jrd_flat3, jpure_eq_ok, jbind_ok]
+  jtame_struct
+
+theorem jtame_PM2_full_cascade_kissel (hz : ¬(Z < 1 ∨ Z > 120)) (hf : JTame (JGen.CS_Photo_Partial (JTables.ofC T) Z 5 E)) :
+    JTame (JGen.PM2_full_cascade_kissel (JTables.ofC T) Z E PK PL1 PL2 PL3 PM1) := by
+  unfold JGen.PM2_full_cascade_kissel JGen.get_kissel_offset
+  jeq_normJ
+  try simp (disch := omega) only [wrapI_eq, jrd_flat3, jpure_eq_ok, jbind_ok]
+  jtame_struct
+
+theorem jtame_PM3_pure_kissel (hz : ¬(Z < 1 ∨ Z > 120)) (hf : JTame (JGen.CS_Photo_Partial (JTables.ofC T) Z 6 E)) :
+    JTame (JGen.PM3_pure_kissel (JTables.ofC T) Z E PM1 PM2) := by
+  unfold JGen.PM3_pure_kissel
+  jeq_normJ
+  try simp (disch := omega) only [wrapI_eq, jrd_flat3, jpure_eq_ok, jbind_ok]
+  jtame_struct
+
+theorem jtame_PM3_rad_cascade_kissel (hz : ¬(Z < 1 ∨ Z > 120)) (hf : JTame (JGen.CS_Photo_Partial (JTables.ofC T) Z 6 E)) :
+    JTame (JGen.PM3_rad_cascade_kissel (JTables.ofC T) Z E PK PL1 PL2 PL3 PM1 PM2) := by
+  unfold JGen.PM3_rad_cascade_kissel
+  jeq_normJ
+  try simp (disch := omega) only [wrapI_eq, jrd_flat3, jpure_eq_ok, jbind_ok]
+  jtame_struct
+
+theorem jtame_PM3_auger_cascade_kissel (hz : ¬(Z < 1 ∨ Z > 120)) (hf : JTame (JGen.CS_Photo_Partial (JTables.ofC T) Z 6 E)) :
+    JTame (JGen.PM3_auger_cascade_kissel (JTables.ofC T) Z E PK PL1 PL2 PL3 PM1 PM2) := by
+  unfold JGen.PM3_auger_cascade_kissel JGen.get_kissel_offset
+  jeq_normJ
+  try simp (disch := omega) only [wrapI_eq, jrd_flat3, jpure_eq_ok, jbind_ok]
+  jtame_struct
+
+theorem jtame_PM3_full_cascade_kissel (hz : ¬(Z < 1 ∨ Z > 120)) (hf : JTame (JGen.CS_Photo_Partial (JTables.ofC T) Z 6 E)) :
+    JTame (JGen.PM3_full_cascade_kissel (JTables.ofC T) Z E PK PL1 PL2 PL3 PM1 PM2) := by
+  unfold JGen.PM3_full_cascade_kissel JGen.get_kissel_offset
+  jeq_normJ
+  try simp (disch := omega) only [wrapI_eq, jrd_flat3, jpure_eq_ok, jbind_ok]
+  jtame_struct
+
+theorem jtame_PM4_pure_kissel (hz : ¬(Z < 1 ∨ Z > 120)) (hf : JTame (JGen.CS_Photo_Partial (JTables.ofC T) Z 7 E)) :
+    JTame (JGen.PM4_pure_kissel (JTables.ofC T) Z E PM1 PM2 PM3) := by
+  unfold JGen.PM4_pure_kissel
+  jeq_normJ
+  try simp (disch := omega) only [wrapI_eq, jrd_flat3, jpure_eq_ok, jbind_ok]
+  jtame_struct
+
+theorem jtame_PM4_rad_cascade_kissel (hz : ¬(Z < 1 ∨ Z > 120)) (hf : JTame (JGen.CS_Photo_Partial (JTables.ofC T) Z 7 E)) :
+    JTame (JGen.PM4_rad_cascade_kissel (JTables.ofC T) Z E PK PL1 PL2 PL3 PM1 PM2 PM3) := by
+  unfold JGen.PM4_rad_cascade_kissel
+  jeq_normJ
+  try simp (disch := omega) only [wrapI_eq, jrd_flat3, jpure_eq_ok, jbind_ok]
+  jtame_struct
+
+theorem jtame_PM4_auger_cascade_kissel (hz : ¬(Z < 1 ∨ Z > 120)) (hf : JTame (JGen.CS_Photo_Partial (JTables.ofC T) Z 7 E)) :
+    JTame (JGen.PM4_auger_cascade_kissel (JTables.ofC T) Z E PK PL1 PL2 PL3 PM1 PM2 PM3) := by
+  unfold JGen.PM4_auger_cascade_kissel JGen.get_kissel_offset
+  jeq_normJ
+  try simp (disch := omega) only [wrapI_eq, jrd_flat3, jpure_eq_ok, jbind_ok]
+  jtame_struct
+
+theorem jtame_PM4_full_cascade_kissel (hz : ¬(Z < 1 ∨ Z > 120)) (hf : JTame (JGen.CS_Photo_Partial (JTables.ofC T) Z 7 E)) :
+    JTame (JGen.PM4_full_cascade_kissel (JTables.ofC T) Z E PK PL1 PL2 PL3 PM1 PM2 PM3) := by
+  unfold JGen.PM4_full_cascade_kissel JGen.get_kissel_offset
+  jeq_normJ
+  try simp (disch := omega) only [wrapI_eq, jrd_flat3, jpure_eq_ok, jbind_ok]
+  jtame_struct
+
+theorem jtame_PM5_pure_kissel (hz : ¬(Z < 1 ∨ Z > 120)) (hf : JTame (JGen.CS_Photo_Partial (JTables.ofC T) Z 8 E)) :
+    JTame (JGen.PM5_pure_kissel (JTables.ofC T) Z E PM1 PM2 PM3 PM4) := by
+  unfold JGen.PM5_pure_kissel
+  jeq_normJ
+  try simp (disch := omega) only [wrapI_eq, jrd_flat3, jpure_eq_ok, jbind_ok]
+  jtame_struct
+
+theorem jtame_PM5_rad_cascade_kissel (hz : ¬(Z < 1 ∨ Z > 120)) (hf : JTame (JGen.CS_Photo_Partial (JTables.ofC T) Z 8 E)) :
+    JTame (JGen.PM5_rad_cascade_kissel (JTables.ofC T) Z E PK PL1 PL2 PL3 PM1 PM2 PM3 PM4) := by
+  unfold JGen.PM5_rad_cascade_kissel
+  jeq_normJ
+  try simp (disch := omega) only [wrapI_eq, jrd_flat3, jpure_eq_ok, jbind_ok]
+  jtame_struct
+
+theorem jtame_PM5_auger_cascade_kissel (hz : ¬(Z < 1 ∨ Z > 120)) (hf : JTame (JGen.CS_Photo_Partial (JTables.ofC T) Z 8 E)) :
+    JTame (JGen.PM5_auger_cascade_kissel (JTables.ofC T) Z E PK PL1 PL2 PL3 PM1 PM2 PM3 PM4) := by
+  unfold JGen.PM5_auger_cascade_kissel JGen.get_kissel_offset
+  jeq_normJ
+  try simp (disch := omega) only [wrapI_eq, jrd_flat3, jpure_eq_ok, jbind_ok]
+  jtame_struct
+
+theorem jtame_PM5_full_cascade_kissel (hz : ¬(Z < 1 ∨ Z > 120)) (hf : JTame (JGen.CS_Photo_Partial (JTables.ofC T) Z 8 E)) :
+    JTame (JGen.PM5_full_cascade_kissel (JTables.ofC T) Z E PK PL1 PL2 PL3 PM1 PM2 PM3 PM4) := by
+  unfold JGen.PM5_full_cascade_kissel JGen.get_kissel_offset
+  jeq_normJ
+  try simp (disch := omega) only [wrapI_eq, jrd_flat3, jpure_eq_ok, jbind_ok]
+  jtame_struct
+
+end jtame
+
+section kshell
+variable (T : Tables ℝ) (Z : Int) (hZ : inI32 Z) (m : Int) (hm : inI32 m) (E : ℝ) (s : Slot) (hs : s.isFull = false)
+include hZ hm hs
+
+theorem java_eq_c_CS_FluorShell_Kissel_no_Cascade (hk : KAllOk T Z)
+    (ht : ∀ k : Int, 0 ≤ k → k < 9 → JTame (JGen.CS_Photo_Partial (JTables.ofC T) Z k E)) :
+    JRel (JGen.CS_FluorShell_Kissel_no_Cascade (JTables.ofC T) Z m E) (Gen.CS_FluorShell_Kissel_no_Cascade T Z m E s) s := by
+  jeq_start JGen.CS_FluorShell_Kissel_no_Cascade Gen.CS_FluorShell_Kissel_no_Cascade
+  by_cases hz : Z < 1 ∨ Z > 120
+  · jeq_auto
+  by_cases hE : E ≤ 0
+  · jeq_auto
+  simp only [hz, hE, ↓reduceIte, zero_lit]
+  by_cases h0 : m = 0
+  · subst h0
+    simp only [↓reduceIte, Int.reduceEq]
+    jeq_use_pos (java_eq_c_FluorYield T Z 0 hZ (by decide) s hs), (java_pos_FluorYield T Z hZ 0 (by decide))
+    jeq_simp
+    jeq_use (java_eq_c_CS_Photo_Partial T Z 0 hZ (by decide) E s hs (hk.vec 0 (by decide) (by decide)).1 (hk.vec 0 (by decide) (by decide)).2.1 (hk.vec 0 (by decide) (by decide)).2.2 (Or.inl (by decide)))
+    jeq_auto
+  by_cases h1 : m = 1
+  · subst h1
+    simp only [↓reduceIte, Int.reduceEq]
+    simp only [jpure_eq_ok, pure_eq_ok, jbind_ret, zero_lit, deq_real]
+    jeq_use_pos (java_eq_c_FluorYield T Z 1 hZ (by decide) s hs), (java_pos_FluorYield T Z hZ 1 (by decide))
+    jeq_simp
+    jeq_use (java_eq_c_PL1_pure_kissel T Z hZ E  s hs (hk.vec 1 (by decide) (by decide)))
+    jeq_auto
+  by_cases h2 : m = 2
+  · subst h2
+    simp only [↓reduceIte, Int.reduceEq]
+    have t0 := jtame_PL1_pure_kissel T Z hZ E  hz (ht 1 (by decide) (by decide))
+    have c0 := JCatchRel.of_rel (java_eq_c_PL1_pure_kissel T Z hZ E  Slot.null rfl (hk.vec 1 (by decide) (by decide)))
+    obtain ⟨p0, hp0⟩ := t0.jtry_val (d := (0.0 : ℝ))
+    simp only [jpure_eq_ok, zero_lit] at hp0 c0
+    simp only [jpure_eq_ok, pure_eq_ok, jbind_ret, zero_lit, deq_real]
+    rcases c0.cases with ⟨v0, hc0, hj0⟩ | ⟨a, b, hc0, hj0⟩ | ⟨a, hc0⟩
+    · have e0 : p0 = v0 := by rw [hp0] at hj0; cases hj0; rfl
+      subst e0; clear hp0
+      simp only [hj0, jbind_ok]
+      jeq_use_pos (java_eq_c_FluorYield T Z 2 hZ (by decide) s hs), (java_pos_FluorYield T Z hZ 2 (by decide))
+      jeq_simp
+      jeq_use (java_eq_c_PL2_pure_kissel T Z hZ E p0 s hs (hk.vec 2 (by decide) (by decide)))
+      jeq_auto
+    · rw [hp0] at hj0; cases hj0
+    · simp only [hp0, jbind_ok]
+      jeq_use_pos (java_eq_c_FluorYield T Z 2 hZ (by decide) s hs), (java_pos_FluorYield T Z hZ 2 (by decide))
+      jeq_auto
+  by_cases h3 : m = 3
+  · subst h3
+    simp only [↓reduceIte, Int.reduceEq]
+    have t0 := jtame_PL1_pure_kissel T Z hZ E  hz (ht 1 (by decide) (by decide))
+    have c0 := JCatchRel.of_rel (java_eq_c_PL1_pure_kissel T Z hZ E  Slot.null rfl (hk.vec 1 (by decide) (by decide)))
+    obtain ⟨p0, hp0⟩ := t0.jtry_val (d := (0.0 : ℝ))
+    simp only [jpure_eq_ok, zero_lit] at hp0 c0
+    have t1 := jtame_PL2_pure_kissel T Z hZ E p0 hz (ht 2 (by decide) (by decide))
+    have c1 := JCatchRel.of_rel (java_eq_c_PL2_pure_kissel T Z hZ E p0 Slot.null rfl (hk.vec 2 (by decide) (by decide)))
+    obtain ⟨p1, hp1⟩ := t1.jtry_val (d := (0.0 : ℝ))
+    simp only [jpure_eq_ok, zero_lit] at hp1 c1
+    simp only [jpure_eq_ok, pure_eq_ok, jbind_ret, zero_lit, deq_real]
+    rcases c0.cases with ⟨v0, hc0, hj0⟩ | ⟨a, b, hc0, hj0⟩ | ⟨a, hc0⟩
+    · have e0 : p0 = v0 := by rw [hp0] at hj0; cases hj0; rfl
+      subst e0; clear hp0
+      simp only [hj0, jbind_ok]
+      rcases c1.cases with ⟨v1, hc1, hj1⟩ | ⟨a, b, hc1, hj1⟩ | ⟨a, hc1⟩
+      · have e1 : p1 = v1 := by rw [hp1] at hj1; cases hj1; rfl
+        subst e1; clear hp1
+        simp only [hj1, jbind_ok]
+        jeq_use_pos (java_eq_c_FluorYield T Z 3 hZ (by decide) s hs), (java_pos_FluorYield T Z hZ 3 (by decide))
+        jeq_simp
+        jeq_use (java_eq_c_PL3_pure_kissel T Z hZ E p0 p1 s hs (hk.vec 3 (by decide) (by decide)))
+        jeq_auto
+      · rw [hp1] at hj1; cases hj1
+      · simp only [hp1, jbind_ok]
+        jeq_use_pos (java_eq_c_FluorYield T Z 3 hZ (by decide) s hs), (java_pos_FluorYield T Z hZ 3 (by decide))
+        jeq_auto
+    · rw [hp0] at hj0; cases hj0
+    · simp only [hp0, hp1, jbind_ok]
+      jeq_use_pos (java_eq_c_FluorYield T Z 3 hZ (by decide) s hs), (java_pos_FluorYield T Z hZ 3 (by decide))
+      jeq_auto
+  by_cases h4 : m = 4
+  · subst h4
+    simp only [↓reduceIte, Int.reduceEq]
+    simp only [jpure_eq_ok, pure_eq_ok, jbind_ret, zero_lit, deq_real]
+    jeq_use_pos (java_eq_c_FluorYield T Z 4 hZ (by decide) s hs), (java_pos_FluorYield T Z hZ 4 (by decide))
+    jeq_simp
+    jeq_use (java_eq_c_PM1_pure_kissel T Z hZ E  s hs (hk.vec 4 (by decide) (by decide)))
+    jeq_auto
+  by_cases h5 : m = 5
+  · subst h5
+    simp only [↓reduceIte, Int.reduceEq]
+    have t0 := jtame_PM1_pure_kissel T Z hZ E  hz (ht 4 (by decide) (by decide))
+    have c0 := JCatchRel.of_rel (java_eq_c_PM1_pure_kissel T Z hZ E  Slot.null rfl (hk.vec 4 (by decide) (by decide)))
+    obtain ⟨p0, hp0⟩ := t0.jtry_val (d := (0.0 : ℝ))
+    simp only [jpure_eq_ok, zero_lit] at hp0 c0
+    simp only [jpure_eq_ok, pure_eq_ok, jbind_ret, zero_lit, deq_real]
+    rcases c0.cases with ⟨v0, hc0, hj0⟩ | ⟨a, b, hc0, hj0⟩ | ⟨a, hc0⟩
+    · have e0 : p0 = v0 := by rw [hp0] at hj0; cases hj0; rfl
+      subst e0; clear hp0
+      simp only [hj0, jbind_ok]
+      jeq_use_pos (java_eq_c_FluorYield T Z 5 hZ (by decide) s hs), (java_pos_FluorYield T Z hZ 5 (by decide))
+      jeq_simp
+      jeq_use (java_eq_c_PM2_pure_kissel T Z hZ E p0 s hs (hk.vec 5 (by decide) (by decide)))
+      jeq_auto
+    · rw [hp0] at hj0; cases hj0
+    · simp only [hp0, jbind_ok]
+      jeq_use_pos (java_eq_c_FluorYield T Z 5 hZ (by decide) s hs), (java_pos_FluorYield T Z hZ 5 (by decide))
+      jeq_auto
+  by_cases h6 : m = 6
+  · subst h6
+    simp only [↓reduceIte, Int.reduceEq]
+    have t0 := jtame_PM1_pure_kissel T Z hZ E  hz (ht 4 (by decide) (by decide))
+    have c0 := JCatchRel.of_rel (java_eq_c_PM1_pure_kissel T Z hZ E  Slot.null rfl (hk.vec 4 (by decide) (by decide)))
+    obtain ⟨p0, hp0⟩ := t0.jtry_val (d := (0.0 : ℝ))
+    simp only [jpure_eq_ok, zero_lit] at hp0 c0
+    have t1 := jtame_PM2_pure_kissel T Z hZ E p0 hz (ht 5 (by decide) (by decide))
+    have c1 := JCatchRel.of_rel (java_eq_c_PM2_pure_kissel T Z hZ E p0 Slot.null rfl (hk.vec 5 (by decide) (by decide)))
+    obtain ⟨p1, hp1⟩ := t1.jtry_val (d := (0.0 : ℝ))
+    simp only [jpure_eq_ok, zero_lit] at hp1 c1
+    simp only [jpure_eq_ok, pure_eq_ok, jbind_ret, zero_lit, deq_real]
+    rcases c0.cases with ⟨v0, hc0, hj0⟩ | ⟨a, b, hc0, hj0⟩ | ⟨a, hc0⟩
+    · have e0 : p0 = v0 := by rw [hp0] at hj0; cases hj0; rfl
+      subst e0; clear hp0
+      simp only [hj0, jbind_ok]
+      rcases c1.cases with ⟨v1, hc1, hj1⟩ | ⟨a, b, hc1, hj1⟩ | ⟨a, hc1⟩
+      · have e1 : p1 = v1 := by rw [hp1] at hj1; cases hj1; rfl
+        subst e1; clear hp1
+        simp only [hj1, jbind_ok]
+        jeq_use_pos (java_eq_c_FluorYield T Z 6 hZ (by decide) s hs), (java_pos_FluorYield T Z hZ 6 (by decide))
+        jeq_simp
+        jeq_use (java_eq_c_PM3_pure_kissel T Z hZ E p0 p1 s hs (hk.vec 6 (by decide) (by decide)))
+        jeq_auto
+      · rw [hp1] at hj1; cases hj1
+      · simp only [hp1, jbind_ok]
+        jeq_use_pos (java_eq_c_FluorYield T Z 6 hZ (by decide) s hs), (java_pos_FluorYield T Z hZ 6 (by decide))
+        jeq_auto
+    · rw [hp0] at hj0; cases hj0
+    · simp only [hp0, hp1, jbind_ok]
+      jeq_use_pos (java_eq_c_FluorYield T Z 6 hZ (by decide) s hs), (java_pos_FluorYield T Z hZ 6 (by decide))
+      jeq_auto
+  by_cases h7 : m = 7
+  · subst h7
+    simp only [↓reduceIte, Int.reduceEq]
+    have t0 := jtame_PM1_pure_kissel T Z hZ E  hz (ht 4 (by decide) (by decide))
+    have c0 := JCatchRel.of_rel (java_eq_c_PM1_pure_kissel T Z hZ E  Slot.null rfl (hk.vec 4 (by decide) (by decide)))
+    obtain ⟨p0, hp0⟩ := t0.jtry_val (d := (0.0 : ℝ))
+    simp only [jpure_eq_ok, zero_lit] at hp0 c0
+    have t1 := jtame_PM2_pure_kissel T Z hZ E p0 hz (ht 5 (by decide) (by decide))
+    have c1 := JCatchRel.of_rel (java_eq_c_PM2_pure_kissel T Z hZ E p0 Slot.null rfl (hk.vec 5 (by decide) (by decide)))
+    obtain ⟨p1, hp1⟩ := t1.jtry_val (d := (0.0 : ℝ))
+    simp only [jpure_eq_ok, zero_lit] at hp1 c1
+    have t2 := jtame_PM3_pure_kissel T Z hZ E p0 p1 hz (ht 6 (by decide) (by decide))
+    have c2 := JCatchRel.of_rel (java_eq_c_PM3_pure_kissel T Z hZ E p0 p1 Slot.null rfl (hk.vec 6 (by decide) (by decide)))
+    obtain ⟨p2, hp2⟩ := t2.jtry_val (d := (0.0 : ℝ))
+    simp only [jpure_eq_ok, zero_lit] at hp2 c2
+    simp only [jpure_eq_ok, pure_eq_ok, jbind_ret, zero_lit, deq_real]
+    rcases c0.cases with ⟨v0, hc0, hj0⟩ | ⟨a, b, hc0, hj0⟩ | ⟨a, hc0⟩
+    · have e0 : p0 = v0 := by rw [hp0] at hj0; cases hj0; rfl
+      subst e0; clear hp0
+      simp only [hj0, jbind_ok]
+      rcases c1.cases with ⟨v1, hc1, hj1⟩ | ⟨a, b, hc1, hj1⟩ | ⟨a, hc1⟩
+      · have e1 : p1 = v1 := by rw [hp1] at hj1; cases hj1; rfl
+        subst e1; clear hp1
+        simp only [hj1, jbind_ok]
+        rcases c2.cases with ⟨v2, hc2, hj2⟩ | ⟨a, b, hc2, hj2⟩ | ⟨a, hc2⟩
+        · have e2 : p2 = v2 := by rw [hp2] at hj2; cases hj2; rfl
+          subst e2; clear hp2
+          simp only [hj2, jbind_ok]
+          jeq_use_pos (java_eq_c_FluorYield T Z 7 hZ (by decide) s hs), (java_pos_FluorYield T Z hZ 7 (by decide))
+          jeq_simp
+          jeq_use (java_eq_c_PM4_pure_kissel T Z hZ E p0 p1 p2 s hs (hk.vec 7 (by decide) (by decide)))
+          jeq_auto
+        · rw [hp2] at hj2; cases hj2
+        · simp only [hp2, jbind_ok]
+          jeq_use_pos (java_eq_c_FluorYield T Z 7 hZ (by decide) s hs), (java_pos_FluorYield T Z hZ 7 (by decide))
+          jeq_auto
+      · rw [hp1] at hj1; cases hj1
+      · simp only [hp1, hp2, jbind_ok]
+        jeq_use_pos (java_eq_c_FluorYield T Z 7 hZ (by decide) s hs), (java_pos_FluorYield T Z hZ 7 (by decide))
+        jeq_auto
+    · rw [hp0] at hj0; cases hj0
+    · simp only [hp0, hp1, hp2, jbind_ok]
+      jeq_use_pos (java_eq_c_FluorYield T Z 7 hZ (by decide) s hs), (java_pos_FluorYield T Z hZ 7 (by decide))
+      jeq_auto
+  by_cases h8 : m = 8
+  · subst h8
+    simp only [↓reduceIte, Int.reduceEq]
+    have t0 := jtame_PM1_pure_kissel T Z hZ E  hz (ht 4 (by decide) (by decide))
+    have c0 := JCatchRel.of_rel (java_eq_c_PM1_pure_kissel T Z hZ E  Slot.null rfl (hk.vec 4 (by decide) (by decide)))
+    obtain ⟨p0, hp0⟩ := t0.jtry_val (d := (0.0 : ℝ))
+    simp only [jpure_eq_ok, zero_lit] at hp0 c0
+    have t1 := jtame_PM2_pure_kissel T Z hZ E p0 hz (ht 5 (by decide) (by decide))
+    have c1 := JCatchRel.of_rel (java_eq_c_PM2_pure_kissel T Z hZ E p0 Slot.null rfl (hk.vec 5 (by decide) (by decide)))
+    obtain ⟨p1, hp1⟩ := t1.jtry_val (d := (0.0 : ℝ))
+    simp only [jpure_eq_ok, zero_lit] at hp1 c1
+    have t2 := jtame_PM3_pure_kissel T Z hZ E p0 p1 hz (ht 6 (by decide) (by decide))
+    have c2 := JCatchRel.of_rel (java_eq_c_PM3_pure_kissel T Z hZ E p0 p1 Slot.null rfl (hk.vec 6 (by decide) (by decide)))
+    obtain ⟨p2, hp2⟩ := t2.jtry_val (d := (0.0 : ℝ))
+    simp only [jpure_eq_ok, zero_lit] at hp2 c2
+    have t3 := jtame_PM4_pure_kissel T Z hZ E p0 p1 p2 hz (ht 7 (by decide) (by decide))
+    have c3 := JCatchRel.of_rel (java_eq_c_PM4_pure_kissel T Z hZ E p0 p1 p2 Slot.null rfl (hk.vec 7 (by decide) (by decide)))
+    obtain ⟨p3, hp3⟩ := t3.jtry_val (d := (0.0 : ℝ))
+    simp only [jpure_eq_ok, zero_lit] at hp3 c3
+    simp only [jpure_eq_ok, pure_eq_ok, jbind_ret, zero_lit, deq_real]
+    rcases c0.cases with ⟨v0, hc0, hj0⟩ | ⟨a, b, hc0, hj0⟩ | ⟨a, hc0⟩
+    · have e0 : p0 = v0 := by rw [hp0] at hj0; cases hj0; rfl
+      subst e0; clear hp0
+      simp only [hj0, jbind_ok]
+      rcases c1.cases with ⟨v1, hc1, hj1⟩ | ⟨a, b, hc1, hj1⟩ | ⟨a, hc1⟩
+      · have e1 : p1 = v1 := by rw [hp1] at hj1; cases hj1; rfl
+        subst e1; clear hp1
+        simp only [hj1, jbind_ok]
+        rcases c2.cases with ⟨v2, hc2, hj2⟩ | ⟨a, b, hc2, hj2⟩ | ⟨a, hc2⟩
+        · have e2 : p2 = v2 := by rw [hp2] at hj2; cases hj2; rfl
+          subst e2; clear hp2
+          simp only [hj2, jbind_ok]
+          rcases c3.cases with ⟨v3, hc3, hj3⟩ | ⟨a, b, hc3, hj3⟩ | ⟨a, hc3⟩
+          · have e3 : p3 = v3 := by rw [hp3] at hj3; cases hj3; rfl
+            subst e3; clear hp3
+            simp only [hj3, jbind_ok]
+            jeq_use_pos (java_eq_c_FluorYield T Z 8 hZ (by decide) s hs), (java_pos_FluorYield T Z hZ 8 (by decide))
+            jeq_simp
+            jeq_use (java_eq_c_PM5_pure_kissel T Z hZ E p0 p1 p2 p3 s hs (hk.vec 8 (by decide) (by decide)))
+            jeq_auto
+          · rw [hp3] at hj3; cases hj3
+          · simp only [hp3, jbind_ok]
+            jeq_use_pos (java_eq_c_FluorYield T Z 8 hZ (by decide) s hs), (java_pos_FluorYield T Z hZ 8 (by decide))
+            jeq_auto
+        · rw [hp2] at hj2; cases hj2
+        · simp only [hp2, hp3, jbind_ok]
+          jeq_use_pos (java_eq_c_FluorYield T Z 8 hZ (by decide) s hs), (java_pos_FluorYield T Z hZ 8 (by decide))
+          jeq_auto
+      · rw [hp1] at hj1; cases hj1
+      · simp only [hp1, hp2, hp3, jbind_ok]
+        jeq_use_pos (java_eq_c_FluorYield T Z 8 hZ (by decide) s hs), (java_pos_FluorYield T Z hZ 8 (by decide))
+        jeq_auto
+    · rw [hp0] at hj0; cases hj0
+    · simp only [hp0, hp1, hp2, hp3, jbind_ok]
+      jeq_use_pos (java_eq_c_FluorYield T Z 8 hZ (by decide) s hs), (java_pos_FluorYield T Z hZ 8 (by decide))
+      jeq_auto
+  jeq_auto
+end kshell
+
 end C19
 end Xrl
